@@ -13,15 +13,6 @@ SHORT = 'array'
 
 ENV = '''
 pub assume_specification<T: Clone> [<[T]>::to_vec] (s: &[T]) -> (r: Vec<T>) ensures r@ == s@;
-#[derive(Debug, Clone, Copy, PartialEq, Eq, Structural)]
-pub struct StatusCode { pub bits: u32 }
-impl StatusCode {
-    pub const Good: StatusCode = StatusCode { bits: 0 };
-    pub const BadDecodingError: StatusCode = StatusCode { bits: 0x8007_0000 };
-    pub const BadIndexRangeInvalid: StatusCode = StatusCode { bits: 0x8036_0000 };
-    pub const BadIndexRangeNoData: StatusCode = StatusCode { bits: 0x8037_0000 };
-    pub const BadWriteNotSupported: StatusCode = StatusCode { bits: 0x8073_0000 };
-}
 // ---- the built-in types a Variant can hold, as far as this unit is concerned: opaque payloads
 pub struct UAString { pub x: u64 }
 pub type XmlElement = UAString;
@@ -352,6 +343,7 @@ def build(manifest):
     a = Asm()
     a.add('use vstd::prelude::*;\nverus! {\nglobal size_of usize == 8;\n', 'prelude', 'env')
     a.add(norm_vis(types), 'types', 'env')
+    a.add(status_code_struct(manifest), 'status codes', 'env')      # every status code of the real file (D14)
     a.add(ENV, 'env', 'env')
     a.add('impl Array {')
     a.add(f['validate_array_type_to_values'], 'Array::validate_array_type_to_values', 'fn')
